@@ -36,7 +36,8 @@ RefSrc(h) == IF h.manual THEN "[man" \o ToString(h.t) \o "]" ELSE "[" \o Heads[h
 EvSrc(e) == CASE e.a = "call"   -> "x" \o Open(e.k) \o e.l \o "]"
               [] e.a = "inline" -> "y[^inline note " \o e.l \o "]"
               [] OTHER          -> "[Not cited][#" \o e.l \o "]"
-Defs(d) == (IF d.nested THEN "[^a]: note a calls z[^c] inside\n\n" ELSE "[^a]: note a\n\n") \o "[^b]: note b\n\n[^c]: note c\n\n[#a]: cite a\n\n[#b]: cite b\n\n[#c]: cite c\n\n" \o (IF d.nested THEN "[?a]: gloss a calls z[?c] inside\n\n" ELSE "[?a]: gloss a\n\n") \o "[?b]: gloss b\n\n[?c]: gloss c\n\n"
+CrossOn(d) == d.cross /\ ~d.nested          \* (one kind of call from inside a list at a time: their order in the output depends on the order of the entries)
+Defs(d) == (IF d.nested THEN "[^a]: note a calls z[^c] inside\n\n" ELSE "[^a]: note a\n\n") \o "[^b]: note b\n\n[^c]: note c\n\n[#a]: cite a\n\n[#b]: cite b\n\n[#c]: cite c\n\n" \o (IF d.nested THEN "[?a]: gloss a calls z[?c] inside\n\n" ELSE "[?a]: gloss a\n\n") \o (IF CrossOn(d) THEN "[?b]: gloss b notes z[^b] inside\n\n" ELSE "[?b]: gloss b\n\n") \o "[?c]: gloss c\n\n"
 Wrap(d, s) == CASE d.nest = "list" -> "* " \o s \o "\n\n" [] d.nest = "quote" -> "> " \o s \o "\n\n" [] OTHER -> s \o "\n\n"
 CapSp(d) == d.capsp /\ d.table           \* the caption's label is written after a space
 \* base = 2: the document starts with 'Base Header Level: 2' (ids, numbering and links do not depend on heading levels)
@@ -49,7 +50,10 @@ Src(d) == (IF d.base > 0 THEN "Base Header Level: " \o ToString(d.base) \o "\n\n
 \* a call inside the text of footnote a happens when that entry is printed, i.e. after all calls of the body
 \* (the footnote list is printed before the glossary list; a term first met inside another term's definition joins the end of the list being printed)
 UsesA(d, k) == \E i \in 1 .. Len(d.ev) : d.ev[i].a = "call" /\ d.ev[i].k = k /\ d.ev[i].l = "a"
-AllEv(d) == d.ev \o (IF d.nested /\ UsesA(d, "fn") THEN <<[a |-> "call", k |-> "fn", l |-> "c"]>> ELSE <<>>) \o (IF d.nested /\ UsesA(d, "gn") THEN <<[a |-> "call", k |-> "gn", l |-> "c"]>> ELSE <<>>)
+\* cross: the definition of glossary term b calls footnote b -- that call happens while the glossary list is printed, i.e. after the footnote list
+UsesL(d, k, l) == \E i \in 1 .. Len(d.ev) : d.ev[i].a = "call" /\ d.ev[i].k = k /\ d.ev[i].l = l
+CrossCall(d) == CrossOn(d) /\ UsesL(d, "gn", "b")
+AllEv(d) == d.ev \o (IF d.nested /\ UsesA(d, "fn") THEN <<[a |-> "call", k |-> "fn", l |-> "c"]>> ELSE <<>>) \o (IF d.nested /\ UsesA(d, "gn") THEN <<[a |-> "call", k |-> "gn", l |-> "c"]>> ELSE <<>>) \o (IF CrossCall(d) THEN <<[a |-> "call", k |-> "fn", l |-> "b"]>> ELSE <<>>)
 D2(d) == [d EXCEPT !.ev = AllEv(d)]
 \* ---- numbering: order of first use, per kind -----------------------------------------------------------------------
 KindOf(e) == IF e.a = "inline" THEN "fn" ELSE IF e.a = "notcited" THEN "cn" ELSE e.k
@@ -77,8 +81,8 @@ Xrefs(d) == LET idx == {i \in 1 .. Len(d.heads) : d.heads[i].ref} IN
 VARIABLE doc
 Pick(S) == IF Sim THEN {RandomElement(S)} ELSE S
 Events == {[a |-> "call", k |-> k, l |-> l] : k \in Kinds, l \in Labels} \cup {[a |-> "inline", k |-> "fn", l |-> l] : l \in {"a", "b"}} \cup {[a |-> "notcited", k |-> "cn", l |-> l] : l \in Labels}
-Init == doc \in {[ev |-> <<>>, heads |-> <<>>, toc |-> t, tocr |-> tr, table |-> tb, nest |-> n, nested |-> ns, base |-> b, capsp |-> cs] :
-                    t \in Pick(BOOLEAN), tr \in Pick(BOOLEAN), tb \in Pick(BOOLEAN), n \in Pick({"plain", "list", "quote"}), ns \in Pick(BOOLEAN), b \in Pick({0, 2}), cs \in Pick(BOOLEAN)}
+Init == doc \in {[ev |-> <<>>, heads |-> <<>>, toc |-> t, tocr |-> tr, table |-> tb, nest |-> n, nested |-> ns, base |-> b, capsp |-> cs, cross |-> cr] :
+                    t \in Pick(BOOLEAN), tr \in Pick(BOOLEAN), tb \in Pick(BOOLEAN), n \in Pick({"plain", "list", "quote"}), ns \in (IF MaxEv = 0 THEN {FALSE} ELSE Pick(BOOLEAN)), b \in Pick({0, 2}), cs \in Pick(BOOLEAN), cr \in (IF MaxEv = 0 THEN {FALSE} ELSE Pick(BOOLEAN))}          \* (calls from inside definitions need calls: not varied in the headings-only family)
         /\ (doc.base > 0 => ~doc.tocr)            \* which levels a restricted TOC means under a shifted base level is not prescribed
 AddEv == Len(doc.ev) < MaxEv /\ doc.heads = <<>> /\ \E e \in Pick(Events) :
             /\ (e.a = "inline" => \A i \in 1 .. Len(doc.ev) : ~(doc.ev[i].a = "inline" /\ doc.ev[i].l = e.l))        \* inline note texts are distinct
